@@ -47,6 +47,7 @@ Inductive event :=
 | Escaped (code : N)            (* an exception left handle_events()/shutdown(); code = exn_code *)
 | AccessLog (c : ctx)           (* HttpProxyPlugin.access_log: the default log line *)
 | UpstreamClose
+| ClientShutdown                (* conn.shutdown(SHUT_WR) on the client socket was called (whatever it returned or raised) *)
 | ClientClose.
 
 Definition log := list event.
@@ -376,15 +377,22 @@ Definition on_client_connection_close (ps : list plugin) (st : pstate) (c0 : ctx
       end
   end.
 
-(* HttpProtocolHandler.shutdown: `if self.plugin: self.plugin.on_client_connection_close()` inside
-   try / except OSError: pass / finally: close the client socket *)
+(* HttpProtocolHandler.shutdown:
+     try:     if self.plugin: self.plugin.on_client_connection_close()      <- FIRST
+              conn.shutdown(socket.SHUT_WR)                                 <- then the client socket
+     except OSError: pass
+     finally: self.work.connection.close()
+   The callbacks run before the socket call, so whatever conn.shutdown does (it raises ENOTCONN after a
+   peer reset; any OSError is swallowed) has no influence on them: the outcome of that call is not even an
+   input of the model.  An OSError raised by a callback skips conn.shutdown; another exception escapes
+   after the close. *)
 Definition shutdown (ps : list plugin) (st : option pstate) (c0 : ctx) (l : log) : log :=
   match st with
-  | None => l ++ [ClientClose]
+  | None => l ++ [ClientShutdown; ClientClose]
   | Some st =>
       let '(l1, x) := on_client_connection_close ps st c0 l in
       match x with
-      | None => l1 ++ [ClientClose]
+      | None => l1 ++ [ClientShutdown; ClientClose]
       | Some e => if is_oserror e then l1 ++ [ClientClose] else l1 ++ [ClientClose; Escaped (exn_code e)]
       end
   end.
